@@ -480,3 +480,161 @@ def canaries_clone(programs):
         Q.note = "CANARY (oracle expects the other clone method) of " + P.pid
         out.append(Q)
     return out
+
+
+# ---------------------------------------------------------------------------------
+# C08
+#            field type        source expr    expected typed value          verus?
+DEF_LITS = [("u8",            "7",           "7u8",                         True),
+            ("u32",           "70000",       "70000u32",                    True),
+            ("i32",           "-3",          "-3i32",                       True),
+            ("u16",           "9u16",        "9u16",                        True),
+            ("u8",            "b'x'",        "120u8",                       True),
+            ("bool",          "true",        "true",                        True),
+            ("char",          "'z'",         "'z'",                         True),
+            ("u32",           "1 + 2",       "3u32",                        True),
+            ("u8",            "u8::MAX",     "255u8",                       True),
+            ("u64",           "7u8",         None,                          False),   # placeholder, filtered (ill-typed on the pinned tree: C01)
+            ("f32",           "1.5",         "1.5f32",                      False),
+            ("f64",           "2",           "2.0f64",                      False),   # int literal, non-int field: Into
+            ("f64",           "2.5f32",      "2.5f64",                      False),   # suffixed float, other float type: no Into on pinned tree -> filtered
+            ("crate::m::W",   "5",           "crate::m::W(10)",             False),   # Into through a user From
+            ("&'static str",  '"hi"',        '"hi"',                        False),
+            ("String",        '"hi"',        'String::from("hi")',          False),
+            ("u16",           "0x1F",        "31u16",                       True),
+            ("i8",            "-128",        "-128i8",                      True),
+            ]
+DEF_LITS = [l for l in DEF_LITS if l[2] is not None and not (l[0] == "f64" and l[1] == "2.5f32")]
+DEF_NONE = [("u8", "0u8", True), ("bool", "false", True), ("u32", "0u32", True), ("char", "'\\0'", True), ("i32", "0i32", True),
+            ("Option<u8>", "None", False), ("f32", "0.0f32", False), ("u16", "0u16", True), ("String", "String::new()", False)]
+
+
+def def_field(name, k, form, idx):
+    """k >= 0: literal DEF_LITS[k]; k < 0: no attribute, type DEF_NONE[-k-1]"""
+    if k >= 0:
+        ty, src, exp, vok = DEF_LITS[k % len(DEF_LITS)]
+        sp = ["Default = %s" % src, "Default(expression = %s)" % src, "Default(expr = %s)" % src,
+              "Default(expression(%s))" % src, "Default(expr(%s))" % src][form % 5]
+        return Field(name, ty, attrs=[sp], default={"src": src, "expected": exp, "verus": vok})
+    ty, exp, vok = DEF_NONE[(-k - 1) % len(DEF_NONE)]
+    return Field(name, ty, default={"src": None, "expected": exp, "verus": vok})
+
+
+def def_traits(new, form):
+    t = "Default(new)" if new and form % 2 == 0 else ("Default(new = true)" if new else "Default")
+    return [t]
+
+
+def c08(tier, seed):
+    ps = _c08(tier, seed)
+    for P in ps:
+        P.tags.setdefault("mk", "// Default takes no inputs")
+    return ps
+
+
+def _c08(tier, seed):
+    rnd = random.Random(seed)
+    c = Counter()
+    out = []
+    form = 0
+    nl = len(DEF_LITS)
+    # structs: every literal kind in every spelling, at each position among defaulted neighbours
+    for k in range(nl):
+        for sp in range(5 if tier != "quick" else 2):
+            form += 1
+            shape = "named" if form % 2 else "tuple"
+            n = 1 + form % 3
+            at = form % n
+            fields = [def_field(NAMES[i] if shape == "named" else None, k if i == at else -(1 + (form + i)), sp + (k % 5 if tier == "quick" else 0) if i == at else 0, i)
+                      for i in range(n)]
+            new = form % 3 == 0
+            out.append(Program(c.pid(), "struct", "S", [Variant(None, shape, fields)], def_traits(new, form), focus={"Default"},
+                               note="struct %s lit=%s spelling=%d at=%d/%d new=%s" % (shape, DEF_LITS[k][1], sp, at, n, new), default={"new": new}))
+    # two/three literal fields next to each other (neighbour's expression must not leak)
+    for k in range(0, nl, 2):
+        form += 1
+        shape = "named" if form % 2 else "tuple"
+        fields = [def_field(NAMES[i] if shape == "named" else None, (k + 3 * i) % nl, form + i, i) for i in range(3)]
+        out.append(Program(c.pid(), "struct", "S", [Variant(None, shape, fields)], def_traits(False, form), focus={"Default"},
+                           note="struct %s three literal fields from %d" % (shape, k), default={"new": False}))
+    out.append(Program(c.pid(), "struct", "S", [Variant(None, "unit", [])], ["Default(new)"], focus={"Default"}, note="unit struct new", default={"new": True}))
+    # type-level expression
+    for form2, (src, exp, shape, tys) in enumerate([
+            ("S { a: 1, b: true }", "S { a: 1u8, b: true }", "named", ["u8", "bool"]),
+            ("S(9, 'q')", "S(9u32, 'q')", "tuple", ["u32", "char"]),
+            ("S { a: 2 + 3, b: false }", "S { a: 5u8, b: false }", "named", ["u8", "bool"])]):
+        for sp in range(3):
+            fields = [Field(NAMES[i] if shape == "named" else None, t, default={"expected": "unused", "verus": True}) for i, t in enumerate(tys)]
+            tl = ["Default(expression = %s)" % src, "Default(expr = %s)" % src, "Default(new, expression(%s))" % src][sp]
+            out.append(Program(c.pid(), "struct", "S", [Variant(None, shape, fields)], [tl], focus={"Default"},
+                               note="struct type-level expression spelling %d" % sp, default={"new": sp == 2, "type_expected": exp}))
+    # enums: marker position x variant kinds
+    kinds = [("unit", 0), ("tuple", 1), ("named", 2), ("tuple", 2), ("named", 1)]
+    nv_list = (1, 2, 3, 4) if tier == "quick" else (1, 2, 3, 4, 5)
+    for nv in nv_list:
+        for mark in range(nv):
+            for rot in range(len(kinds) if tier != "quick" else 2):
+                form += 1
+                variants = []
+                for vi in range(nv):
+                    kind, m = kinds[(vi + rot + mark) % len(kinds)]
+                    marked = vi == mark
+                    # only the designated variant's fields may carry expressions (others are rejected by educe)
+                    fs = [def_field(NAMES[j] if kind == "named" else None,
+                                    ((form + vi + j) % nl) if (marked and (form + vi + j) % 2 == 0) else -(1 + form + j), form + j, j)
+                          for j in range(m)]
+                    variants.append(Variant("V%d" % vi, kind, fs, attrs=["Default"] if (marked and (nv > 1 or form % 2)) else [],
+                                            default={"marked": marked}))
+                new = form % 3 == 0
+                out.append(Program(c.pid(), "enum", "E", variants, def_traits(new, form), focus={"Default"},
+                                   note="enum %d variants default=V%d new=%s" % (nv, mark, new), default={"new": new}))
+    # enum with type-level expression (no marker)
+    vs = [Variant("V0", "unit", []), Variant("V1", "tuple", [Field(None, "u8", default={"expected": "unused"})]),
+          Variant("V2", "named", [Field("a", "bool", default={"expected": "unused"})])]
+    out.append(Program(c.pid(), "enum", "E", vs, ["Default(expression = E::V1(4))"], focus={"Default"},
+                       note="enum type-level expression", default={"new": False, "type_expected": "E::V1(4u8)"}))
+    # unions: marked or only field
+    for nf in (1, 2, 3):
+        for mark in range(nf):
+            for withexpr in (False, True):
+                form += 1
+                tys = ["u32", "[u8; 4]", "i32"]
+                fs = []
+                for i in range(nf):
+                    marked = i == mark
+                    attrs = []
+                    exp = {"u32": "0u32", "[u8; 4]": "[0u8; 4]", "i32": "0i32"}[tys[i]]
+                    if marked and withexpr:
+                        lit = {"u32": ("77", "77u32"), "[u8; 4]": ("[1, 2, 3, 4]", "[1u8, 2, 3, 4]"), "i32": ("-5", "-5i32")}[tys[i]]
+                        attrs = ["Default = %s" % lit[0]] if form % 2 else ["Default(expression = %s)" % lit[0]]
+                        exp = lit[1]
+                    elif marked and nf > 1:
+                        attrs = ["Default"]
+                    fs.append(Field(NAMES[i], tys[i], attrs=attrs, default={"marked": marked, "expected": exp}))
+                P = Program(c.pid(), "union", "U", [Variant(None, "named", fs)], def_traits(form % 2 == 0, form), focus={"Default"},
+                            note="union %d fields default=%s expr=%s" % (nf, NAMES[mark], withexpr), default={"new": form % 2 == 0})
+                P.tags["mk"] = "pub fn mk<Z9: Src>(s: &mut Z9) -> TI { U { %s: <%s as Default>::default() } }" % (NAMES[0], tys[0])
+                out.append(P)
+    return out
+
+
+def canaries_default(programs):
+    out = []
+    picks = [p for p in programs if p.kind == "struct" and not p.s("default", "type_expected")
+             and any(f.s("default", "src") and f.ty == "u8" for f in p.variants[0].fields)]
+    for P in picks[:1]:
+        Q = P.clone(); Q.pid = P.pid + "_canary"; Q.canary_of = P.pid
+        for f in Q.variants[0].fields:
+            if f.s("default", "src") and f.ty == "u8":
+                f.sem["default"] = dict(f.sem["default"], expected="99u8")
+        Q.note = "CANARY (oracle expects another literal) of " + P.pid
+        out.append(Q)
+    es = [p for p in programs if p.kind == "enum" and len(p.variants) >= 2 and not p.s("default", "type_expected")]
+    for P in es[:1]:
+        Q = P.clone(); Q.pid = P.pid + "_canary"; Q.canary_of = P.pid
+        m = [v for v in Q.variants if v.s("default", "marked")][0]
+        other = [v for v in Q.variants if v is not m][0]
+        m.sem["default"] = {"marked": False}; other.sem["default"] = {"marked": True}
+        Q.note = "CANARY (oracle designates another variant) of " + P.pid
+        out.append(Q)
+    return out
